@@ -1300,8 +1300,11 @@ static vbi_bool vbi_proxyd_token_grant( PROXY_CLNT * req )
          req->chn_state.token_state = REQ_TOKEN_GRANTED;
          break;
       case REQ_TOKEN_RELEASE:
-         /* reclaim already sent -> must re-assign token */
-         req->chn_state.token_state = REQ_TOKEN_GRANT;
+         /* reclaim already sent: the client still holds the token until it
+         ** replies, so it must not be marked as "grant not yet sent" (from
+         ** that state the token is handed to other clients without reclaim);
+         ** the scheduler runs again when the reply arrives */
+         token_free = FALSE;
          break;
       case REQ_TOKEN_GRANTED:
       case REQ_TOKEN_RETURNED:
